@@ -117,12 +117,10 @@ inline void *raw_alloc(size_t n, bool array)
     if (counted) {
         ++a.n_allocs;
         if (n > a.max_seen) a.max_seen = n;
-        if (a.armed) {
-            long k = a.op_allocs++;
-            if (k == a.fail_at) {
-                a.fault_fired = true;
-                throw std::bad_alloc();
-            }
+        long k = a.op_allocs++;
+        if (a.armed && k == a.fail_at) {
+            a.fault_fired = true;
+            throw std::bad_alloc();
         }
     }
     if (n > a.max_request) {
